@@ -6,6 +6,8 @@ import BB.Model.Tools
 import BB.Proofs.G3Sort
 import BB.Proofs.G3Prep
 import BB.Proofs.G3Check
+import BB.Proofs.G12Consistency
+import BB.Proofs.G12Order
 
 namespace BB.C07
 open BB
@@ -498,5 +500,215 @@ example : G3.Ex.seqNoOff.outputForAWGFile = .error .value :=
 
 /-- `no_SR_raises_all`: instance of the hypothesis -/
 example : Dict.has G3.Ex.seqNoSR.awgspecs "SR" = false := by decide +kernel
+
+end BB.C07
+
+/-! ## G12: the verdict in terms of the stored entries, for everything the public API builds -/
+
+namespace BB.C07
+open BB
+open BB.G12 (SameSR SameChannels SameChannelSet Filled SubsAnswer AddOp addAll)
+
+/-- **clause 1, for every sequence, no side hypotheses** ("checkConsistency returns True exactly when
+    positions 1..N are all filled with no gap (in whatever order they were added), all entries have
+    the same sample rate and all entries define the same set of channels"): `checkConsistency`
+    returns True iff a sample rate is set, every stored entry reports one and the same sample rate
+    (`SameSR`), every stored entry reports a channel list and these lists agree up to order
+    (`SameChannels`), and the stored positions are a permutation of 1..N (`Filled`).  The two
+    `mapM`-succeeds hypotheses and the non-emptiness hypothesis of `checkConsistency_iff` are gone:
+    they are part of the right-hand side (an entry that does not answer makes it false). -/
+theorem checkConsistency_true_iff_conditions (s : Sequence) :
+    s.checkConsistency = .ok true ↔
+      Dict.has s.awgspecs "SR" = true ∧ SameSR s ∧ SameChannels s ∧ Filled s :=
+  G12.checkConsistency_true_iff_entries s
+
+/-- **clause 1 on API-built sequences, with channel *sets***: for every sequence built through the
+    public API (`Sequence.ApiBuilt`) that has a sample rate, `checkConsistency` returns True iff all
+    entries report the same sample rate, all entries define the same *set* of channels (no entry of
+    such a sequence lists a channel twice, so "equal after `_channelListSorter`" is set equality) and
+    the positions are exactly 1..N. -/
+theorem checkConsistency_built_iff (s : Sequence) (hs : Sequence.ApiBuilt s)
+    (hSR : Dict.has s.awgspecs "SR" = true) :
+    s.checkConsistency = .ok true ↔ SameSR s ∧ SameChannelSet s ∧ Filled s := by
+  rw [checkConsistency_true_iff_conditions, G12.sameChannels_iff_set (G12.apiBuilt_innerWF hs)]
+  simp [hSR]
+
+/-- the same with the three conditions spelled out: there are a sample rate `v` and a channel list
+    `chs` such that every stored entry reports `v` and a channel list with exactly the members of
+    `chs`; and position `k` is filled exactly for `1 ≤ k ≤ N`, `N` the number of stored entries -/
+theorem checkConsistency_built_iff_spelled_out (s : Sequence) (hs : Sequence.ApiBuilt s)
+    (hSR : Dict.has s.awgspecs "SR" = true) :
+    s.checkConsistency = .ok true ↔
+      (∃ v, ∀ x ∈ s.data, x.2.getSR = .ok v) ∧
+      (∃ chs : List Chan, ∀ x ∈ s.data, ∃ c, x.2.channels = .ok c ∧ ∀ ch, ch ∈ c ↔ ch ∈ chs) ∧
+      (∀ k : ℤ, (Dict.get? s.data k).isSome = true ↔ (1 ≤ k ∧ k ≤ s.data.length)) := by
+  rw [checkConsistency_built_iff s hs hSR, G12.filled_iff_positions (G12.apiBuilt_data_wf hs)]
+  rfl
+
+/-- **"... and False otherwise", never an error**: an API-built sequence with a sample rate whose
+    stored subsequences all answer their own `channels` query (`SubsAnswer`; see
+    `subsequence_answers_iff`: each is itself consistent and has its position 1 filled) gets a
+    boolean from `checkConsistency` - neither of the two `mapM`s can fail, because `addElement`
+    validated every stored element. -/
+theorem checkConsistency_built_never_raises (s : Sequence) (hs : Sequence.ApiBuilt s)
+    (hSR : Dict.has s.awgspecs "SR" = true) (ha : SubsAnswer s) :
+    s.checkConsistency = .ok true ∨ s.checkConsistency = .ok false := by
+  obtain ⟨b, hb⟩ := G12.checkConsistency_ok_of_subsAnswer (G11.apiBuilt_innerValidated hs) hSR ha
+  cases b
+  · exact .inr hb
+  · exact .inl hb
+
+/-- **"... and False otherwise"**: under the same hypotheses `checkConsistency` returns False exactly
+    when one of the three conditions fails -/
+theorem checkConsistency_built_false_iff (s : Sequence) (hs : Sequence.ApiBuilt s)
+    (hSR : Dict.has s.awgspecs "SR" = true) (ha : SubsAnswer s) :
+    s.checkConsistency = .ok false ↔ ¬ (SameSR s ∧ SameChannelSet s ∧ Filled s) := by
+  rw [← checkConsistency_built_iff s hs hSR]
+  rcases checkConsistency_built_never_raises s hs hSR ha with h | h <;> simp [h]
+
+/-- the case the quantifier names first - elements only: an API-built sequence with a sample rate
+    that holds no subsequence gets True or False, never an exception -/
+theorem checkConsistency_built_elements_never_raises (s : Sequence) (hs : Sequence.ApiBuilt s)
+    (hSR : Dict.has s.awgspecs "SR" = true) (hel : ∀ x ∈ s.data, ∃ e, x.2 = .el e) :
+    s.checkConsistency = .ok true ∨ s.checkConsistency = .ok false :=
+  checkConsistency_built_never_raises s hs hSR (G12.subsAnswer_of_elementsOnly hel)
+
+/-- what "a stored subsequence answers its `channels` query" means: it is consistent itself and
+    has an element at position 1, whose channels it reports -/
+theorem subsequence_answers_iff (sub : SubSeq) (chs : List Chan) :
+    sub.channels = .ok chs ↔
+      sub.checkConsistency = .ok true ∧ ∃ e, Dict.get? sub.data 1 = some e ∧ e.channels = chs :=
+  G12.subChannels_ok_iff sub chs
+
+/-- **exactly when `checkConsistency` raises on an API-built sequence with a sample rate**: the
+    entries agree on the sample rate (otherwise False is returned before the channels are looked at)
+    and some stored subsequence does not answer its `channels` query -/
+theorem checkConsistency_built_raises_iff (s : Sequence) (hs : Sequence.ApiBuilt s)
+    (hSR : Dict.has s.awgspecs "SR" = true) :
+    (∃ er, s.checkConsistency = .error er) ↔ SameSR s ∧ ¬ SubsAnswer s :=
+  G12.checkConsistency_raises_iff (G11.apiBuilt_innerValidated hs) hSR
+
+/-- ... and the exception is the one that subsequence's `channels` query raised
+    (SequenceConsistencyError for an inconsistent subsequence, KeyError for one without a sample
+    rate or without position 1) -/
+theorem checkConsistency_built_raise_source (s : Sequence) (hs : Sequence.ApiBuilt s)
+    (hSR : Dict.has s.awgspecs "SR" = true) (er : Err) (h : s.checkConsistency = .error er) :
+    ∃ p sub, (p, Entry.sub sub) ∈ s.data ∧ sub.channels = .error er := by
+  rcases G12.checkConsistency_cases (G11.apiBuilt_innerValidated hs) hSR with
+    ⟨b, hb⟩ | ⟨_, x, hx, sub, er', hx2, herr, hcc⟩
+  · rw [hb] at h; cases h
+  · rw [hcc] at h
+    cases h
+    exact ⟨x.1, sub, by rw [← hx2]; exact hx, herr⟩
+
+/-- **the empty sequence, as the code treats it**: with a sample rate set, an empty store counts as
+    consistent (the code substitutes `[None]` / `[1]` for the empty lists) -/
+theorem checkConsistency_empty (s : Sequence) (hSR : Dict.has s.awgspecs "SR" = true) (h : s.data = []) :
+    s.checkConsistency = .ok true := by
+  rw [checkConsistency_true_iff_conditions]
+  refine ⟨hSR, ⟨.none, ?_⟩, ⟨[], ?_⟩, ?_⟩
+  · intro x hx; rw [h] at hx; cases hx
+  · intro x hx; rw [h] at hx; cases hx
+  · unfold Filled; rw [h]; exact List.Perm.refl _
+
+/-- **"in whatever order they were added", on the store**: two sequences with sample rates whose
+    stores hold the same (position, entry) pairs in different orders get the same verdict - both
+    True, both False, or both an exception -/
+theorem checkConsistency_store_order_irrelevant (a b : Sequence) (ha : Sequence.ApiBuilt a)
+    (hp : a.data.Perm b.data) (hSRa : Dict.has a.awgspecs "SR" = true) (hSRb : Dict.has b.awgspecs "SR" = true) :
+    (a.checkConsistency = .ok true ↔ b.checkConsistency = .ok true) ∧
+    (a.checkConsistency = .ok false ↔ b.checkConsistency = .ok false) ∧
+    ((∃ er, a.checkConsistency = .error er) ↔ ∃ er, b.checkConsistency = .error er) :=
+  G12.checkConsistency_perm hp (G11.apiBuilt_innerValidated ha) hSRa hSRb
+
+/-- **"in whatever order they were added", on API histories**: starting from any API-built sequence
+    with a sample rate, two lists of `addElement` / `addSubSequence` calls (`AddOp`; each accepted or
+    refused) that are permutations of each other and address pairwise distinct positions lead to
+    the same verdict of `checkConsistency`.  (With a position addressed twice the later call
+    overwrites the earlier one, so there the order does matter.) -/
+theorem checkConsistency_add_order_irrelevant (s : Sequence) (hs : Sequence.ApiBuilt s)
+    (hSR : Dict.has s.awgspecs "SR" = true) (ops ops' : List AddOp) (hb : ∀ op ∈ ops, op.Built)
+    (hp : ops.Perm ops') (hnd : (ops.map AddOp.pos).Nodup) :
+    ((addAll s ops).checkConsistency = .ok true ↔ (addAll s ops').checkConsistency = .ok true) ∧
+    ((addAll s ops).checkConsistency = .ok false ↔ (addAll s ops').checkConsistency = .ok false) ∧
+    ((∃ er, (addAll s ops).checkConsistency = .error er) ↔ ∃ er, (addAll s ops').checkConsistency = .error er) := by
+  apply checkConsistency_store_order_irrelevant _ _ (G12.addAll_built s hs ops hb)
+    (G12.addAll_data_perm s (G12.apiBuilt_data_wf hs) hp hnd)
+  · rw [G12.addAll_specs]; exact hSR
+  · rw [G12.addAll_specs]; exact hSR
+
+/-! ### non-vacuity and the counterexample (G12) -/
+
+/-- a one-channel raw-array element (3 samples at the given rate) -/
+def g12El (ch : Chan) (sr : ℚ) : Element := (({} : Element).addArray ch [0, 1, 0] (.num sr) []).st
+/-- an empty sequence with sample rate 10 -/
+def g12Base : Sequence := SeqCore.setSR {} (.num 10)
+/-- positions filled as 2, 1 -/
+def g12Ops21 : List AddOp := [.el 2 (g12El (.int 1) 10), .el 1 (g12El (.int 1) 10)]
+/-- the same calls in the order 1, 2 -/
+def g12Ops12 : List AddOp := [.el 1 (g12El (.int 1) 10), .el 2 (g12El (.int 1) 10)]
+/-- a subsequence argument with a hole (only position 2 filled) -/
+def g12SubHole : Sequence := addAll g12Base [.el 2 (g12El (.int 1) 10)]
+
+theorem g12El_built (ch : Chan) (sr : ℚ) : Element.ApiBuilt (g12El ch sr) := .addArray _ _ _ _ _ .empty
+theorem g12Base_built : Sequence.ApiBuilt g12Base := .setSpec _ _ _ .empty
+theorem g12Ops21_built : ∀ op ∈ g12Ops21, op.Built := by
+  intro op hop
+  simp only [g12Ops21, List.mem_cons, List.not_mem_nil, or_false] at hop
+  rcases hop with rfl | rfl <;> exact g12El_built _ _
+theorem g12SubHole_built : Sequence.ApiBuilt g12SubHole :=
+  G12.addAll_built _ g12Base_built _ (by
+    intro op hop
+    simp only [List.mem_cons, List.not_mem_nil, or_false] at hop
+    subst hop
+    exact g12El_built _ _)
+
+/-- non-vacuity of `checkConsistency_built_iff` / `_never_raises` / `_false_iff` / `_elements_never_raises`:
+    API-built sequences with a sample rate; positions added as 2, 1 give True; a hole (1, 3),
+    deviating channels (1 vs "A") and deviating sample rates (10 vs 20) give False -/
+example : Sequence.ApiBuilt (addAll g12Base g12Ops21) ∧ Dict.has (addAll g12Base g12Ops21).awgspecs "SR" = true ∧
+    (∀ x ∈ (addAll g12Base g12Ops21).data, ∃ e, x.2 = .el e) ∧
+    (addAll g12Base g12Ops21).checkConsistency = .ok true ∧
+    (addAll g12Base [.el 1 (g12El (.int 1) 10), .el 3 (g12El (.int 1) 10)]).checkConsistency = .ok false ∧
+    (addAll g12Base [.el 1 (g12El (.int 1) 10), .el 2 (g12El (.str "A") 10)]).checkConsistency = .ok false ∧
+    (addAll g12Base [.el 1 (g12El (.int 1) 10), .el 2 (g12El (.int 1) 20)]).checkConsistency = .ok false := by
+  refine ⟨G12.addAll_built _ g12Base_built _ g12Ops21_built, by decide +kernel, ?_, by decide +kernel,
+    by decide +kernel, by decide +kernel, by decide +kernel⟩
+  intro x hx
+  have hall : (addAll g12Base g12Ops21).data.all
+      (fun x => match x.2 with | .el _ => true | .sub _ => false) = true := by decide +kernel
+  have hx' := List.all_eq_true.mp hall x hx
+  cases hx2 : x.2 with
+  | el e => exact ⟨e, rfl⟩
+  | sub sq => rw [hx2] at hx'; cases hx'
+
+/-- non-vacuity of `checkConsistency_empty` -/
+example : Dict.has g12Base.awgspecs "SR" = true ∧ g12Base.data = [] ∧ g12Base.checkConsistency = .ok true := by
+  decide +kernel
+
+/-- non-vacuity of `checkConsistency_add_order_irrelevant`: the calls 2, 1 and 1, 2 -/
+example : g12Ops21.Perm g12Ops12 ∧ (g12Ops21.map AddOp.pos).Nodup ∧
+    Dict.keys (addAll g12Base g12Ops21).data = [2, 1] ∧ Dict.keys (addAll g12Base g12Ops12).data = [1, 2] := by
+  refine ⟨List.Perm.swap _ _ _, by decide, by decide +kernel, by decide +kernel⟩
+
+/-- **the property's "False otherwise" is not the whole story** (witness): an API-built sequence
+    with a sample rate on which `checkConsistency` raises SequenceConsistencyError instead of
+    returning False - it stores (at position 1) a subsequence that has a hole, and the loop over
+    `elem.channels` asks that subsequence for its channels.  `checkConsistency_built_raises_iff`
+    says this is the only way. -/
+theorem checkConsistency_can_raise_on_built :
+    ∃ s : Sequence, Sequence.ApiBuilt s ∧ Dict.has s.awgspecs "SR" = true ∧
+      s.checkConsistency = .error .consistency :=
+  ⟨addAll g12Base [.sub 1 g12SubHole],
+    G12.addAll_built _ g12Base_built _ (by
+      intro op hop
+      simp only [List.mem_cons, List.not_mem_nil, or_false] at hop
+      subst hop
+      exact g12SubHole_built),
+    by decide +kernel, by decide +kernel⟩
+
+/-- non-vacuity of `subsequence_answers_iff` / `SubsAnswer`: a stored consistent subsequence answers -/
+example : (addAll g12Base [.sub 1 (addAll g12Base g12Ops21)]).checkConsistency = .ok true := by
+  decide +kernel
 
 end BB.C07
